@@ -210,8 +210,8 @@ func GetRawPB(ctx *fiber.Ctx) (RateLimitedBuffer, error) {
 	return decompressPayload(buf)
 }
 
-// LimitDecoded caps what can be read from a decompressed request body at the payload limit
-// (input_buffer_mb / 2): a body that inflates beyond it fails with a 400 error.
+// LimitDecoded caps what can be read from a request body (decompressed, when it has a
+// Content-Encoding) at the payload limit (input_buffer_mb / 2): a longer body fails with a 400 error.
 func LimitDecoded(r io.Reader) io.Reader {
 	return &limitedDecoded{r: r, left: int64(pbPool.limit)}
 }
